@@ -1,27 +1,49 @@
 #!/usr/bin/env python3
-"""runs every seeded change in /verif/seeded against the check of its property (and optional extra checks):
-applies the patch to /repo, runs ./run <id> <tier>, undoes it, stores seeded/<dir>/result.json. Leaves /repo clean."""
+"""runs every seeded change in /verif/seeded against the check of its property:
+applies the patch in a scratch worktree of /repo's HEAD (/tmp/wt-matrix, one incremental sanitizer build for all seeds), runs
+VERIF_REPO=<worktree> ./run <id> <tier>, undoes it, stores seeded/<dir>/result.json. /repo itself is never touched; the worktree and its
+build directory are removed at the end."""
 import json, os, re, subprocess, sys, time
 V = os.path.dirname(os.path.dirname(os.path.abspath(__file__)))
 tier = sys.argv[1] if len(sys.argv) > 1 else "quick"
 only = sys.argv[2:]
+import hashlib, shutil
+WT = "/tmp/wt-matrix"
+subprocess.run(["git", "-C", "/repo", "worktree", "remove", "--force", WT], capture_output=True)
+shutil.rmtree(WT, ignore_errors=True)
+subprocess.run(["git", "-C", "/repo", "worktree", "prune"], capture_output=True)
+r0 = subprocess.run(["git", "-C", "/repo", "worktree", "add", "--detach", WT, "HEAD"], capture_output=True, text=True)
+if r0.returncode:
+    print("cannot create worktree:", r0.stderr); sys.exit(3)
 for d in sorted(os.listdir(os.path.join(V, "seeded"))):
     sd = os.path.join(V, "seeded", d)
     if not os.path.isdir(sd) or (only and d not in only):
         continue
     pid = d.split("-")[0]
     patch = os.path.join(sd, "patch.rebased.diff") if os.path.exists(os.path.join(sd, "patch.rebased.diff")) else os.path.join(sd, "patch.diff")
-    if subprocess.run(["git", "-C", "/repo", "status", "--porcelain", "--untracked-files=no"], capture_output=True, text=True).stdout.strip():
-        print("repo not clean"); sys.exit(3)
-    r = subprocess.run(["git", "-C", "/repo", "apply", patch], capture_output=True, text=True)
+    if not os.path.exists(patch):
+        continue
+    r = subprocess.run(["git", "-C", WT, "apply", patch], capture_output=True, text=True)
     if r.returncode:
         print(d, "does not apply:", r.stderr[:200]); continue
     t0 = time.time()
     try:
-        p = subprocess.run(["./run", pid, tier], cwd=V, capture_output=True, text=True, env=dict(os.environ, VERIF_EVIDENCE_DIR="/tmp/seed_matrix_evidence"))
+        p = subprocess.run(["./run", pid, tier], cwd=V, capture_output=True, text=True, env=dict(os.environ, VERIF_EVIDENCE_DIR="/tmp/seed_matrix_evidence", VERIF_REPO=WT))
     finally:
-        subprocess.run(["git", "-C", "/repo", "checkout", "--", "."])
+        subprocess.run(["git", "-C", WT, "checkout", "--", "."])
     sigs = sorted(set(re.findall(r"^  signature: (.*)$", p.stdout, re.M)))
+    old = {}
+    try:
+        old = json.load(open(os.path.join(sd, "result.json")))
+    except Exception:
+        pass
     res = {"check": pid, "tier": tier, "exit": p.returncode, "violation_lines": len(re.findall(r"^VIOLATION ", p.stdout, re.M)), "signatures": sigs[:12], "wall_s": round(time.time() - t0)}
+    if old.get("first_attempt"):
+        res["first_attempt"] = old["first_attempt"]
     json.dump(res, open(os.path.join(sd, "result.json"), "w"), indent=1)
     print(d, res["exit"], res["violation_lines"], sigs[:3], flush=True)
+
+tag = hashlib.sha1(os.path.abspath(WT).encode()).hexdigest()[:8]
+for fl in ("asan", "plain"):
+    shutil.rmtree(os.path.join(V, ".build", fl + "-" + tag), ignore_errors=True)
+subprocess.run(["git", "-C", "/repo", "worktree", "remove", "--force", WT], capture_output=True)
